@@ -26,13 +26,24 @@ def build(chk):
     if not os.path.exists(zs) or open(zs).read() != want:
         with open(zs, "w") as f: f.write(want)
     judge = common.ocaml_build("judge_shapes", ["gen/shapes.mli", "gen/shapes.ml", "zutil_shapes.ml", "judge_shapes.ml"])
-    exe = common.compile_harness("run_shapes.cc")
-    # keep a private copy: other checks running on scratch trees may evict the library cache
+    # the harness executable is kept under build/shapes-bin keyed by the content of the library tree and of the
+    # three harness sources it includes (common.compile_harness keys on every harness/*.hh, and other checks running
+    # on scratch trees may evict the library cache while this check runs)
+    import hashlib
+    h = hashlib.sha256()
+    for f in ("run_shapes.cc", "vh_common.hh", "vh_ppl.hh"):
+        h.update(open(os.path.join(common.VERIF, "harness", f), "rb").read())
+    key = h.hexdigest()[:12] + "-" + common.tree_hash("mpzH")
     keep = os.path.join(common.BUILD, "shapes-bin")
     os.makedirs(keep, exist_ok=True)
-    dst = os.path.join(keep, os.path.basename(exe) + "-" + os.path.basename(os.path.dirname(exe)))
+    dst = os.path.join(keep, "run_shapes-" + key)
     if not os.path.exists(dst):
-        shutil.copy(exe, dst + ".tmp"); os.rename(dst + ".tmp", dst)
+        exe = common.compile_harness("run_shapes.cc")
+        shutil.copy(exe, dst + ".tmp%d" % os.getpid()); os.rename(dst + ".tmp%d" % os.getpid(), dst)
+        olds = sorted((o for o in os.listdir(keep) if o != os.path.basename(dst)), key=lambda o: os.path.getmtime(os.path.join(keep, o)), reverse=True)
+        for o in olds[4:]:
+            try: os.remove(os.path.join(keep, o))
+            except OSError: pass
     return dst, judge
 
 
